@@ -14,7 +14,7 @@ claimed = {
  "C10": ("every history of up to 4 (5) queue operations incl. restarts, foreign/empty/over-bound submissions and arbitrary datastore iteration order on the real BatchQueue/Sequencer against a FIFO reference; two concurrent submitters, or a submitter and a consumer, under every interleaving at datastore-operation granularity with lock waits", "threads are preempted only at datastore operations; open known findings C10-K1..K3 (hash-keyed persistence)"),
  "C11": ("one reaping step against every seen-set/sequencer/crash combination, and one batch take with a crash at every write: nothing new is dropped, nothing is marked seen unless handed over", "open known findings C11-K1/K2 (take window, timestamp drop)"),
  "C12": ("bounded symbolic execution of the real encoders/decoders, hashing and the batch-cursor codec from go/ssa, differential against a frozen reference encoder; z3 decides every path within the stated bounds", "bounds and summaries are listed in the evidence file; gob cache persistence is outside the claim"),
- "C13": ("stop-responsiveness slice only: each loop function started in an arbitrary state and stopped at an arbitrary instant returns without an uninterruptible wait > 1 s, without spinning (bounded number of interpreter steps after the stop request) and never blocks for ever", "data races and multi-loop interleavings are outside reach of this technique and not claimed"),
+ "C13": ("stop-responsiveness: each loop function started in an arbitrary state and stopped at an arbitrary instant returns without an uninterruptible wait > 1 s, without spinning (bounded number of interpreter steps after the stop request) and never blocks for ever; interleavings: pairs of sequencer activities (production step, header/data submission body, DA-includer wake-up) on one Manager under every interleaving at the granularity of durable store writes and DA submissions (bounded preemptions, lock waits) keep the C01/C06/C07 post-conditions", "data races (memory-access granularity) are outside reach of this technique and not claimed; interleavings finer than store/DA operations, more than two activities at once and the P2P/sync/retrieve loops in combination are outside the bound"),
  "C14": ("all histories of up to 2 (thorough: 3) arbitrary mutators with reopen/crash points on the real DefaultStore over a datastore double, every reader compared with a map model; symbolic execution of the real code from go/ssa, z3 decides every path", "ds.Batching contract assumed (atomic batch, durable put); heights used as keys picked from {1,10,2^40}; badger outside"),
  "C15": ("two instances of the real KVExecutor driven with the same ExecuteTxs calls (incl. replays of earlier blocks) and different finalize (any height, also ahead of execution)/mempool/init/reopen schedules return identical state roots; rejected blocks change nothing", "transaction menu of 8 concrete strings; 2 blocks + one third call"),
  "C16": ("client-side size filter of the real API.SubmitWithOptions executed symbolically against a reference model for all blob lists within the bound and every 64-bit limit", "only the size-filter clause is claimed: wire error identity and JSON payload equality are outside reach (go-jsonrpc/encoding/json are reflection driven)"),
